@@ -123,6 +123,66 @@ def obb_overlap_depth(a, b):
     return float(best)
 
 
+# ------------------------------------------------------------------ independent exact geometry of accepted scenes
+def _rot(o):
+    return numpy.array(o.orientation.getRotation().as_matrix(), dtype=float)
+
+
+def indep_geometry(o, spec_pieces):
+    """The solid of an object as a list of convex vertex arrays, computed WITHOUT the fast-path attributes of the code
+    under test (_isPlanarBox, _boundingPolygon, boundingBox...): boxes from position + orientation + dimensions, assemblies
+    from the generator's piece list, other convex shapes from the vertices of the scaled, posed mesh."""
+    from scenic.core.shapes import BoxShape
+    R = _rot(o)
+    pos = numpy.array([o.position.x, o.position.y, o.position.z], dtype=float)
+    dims = numpy.array([o.width, o.length, o.height], dtype=float)
+    if spec_pieces is not None:
+        from c02_shapes import piece_corners
+        cs, centre, ext = piece_corners(spec_pieces)
+        return [((c - centre) * (dims / ext)) @ R.T + pos for c in cs], "assembly"
+    if type(o.shape) is BoxShape:
+        loc = numpy.array([[sx * dims[0] / 2, sy * dims[1] / 2, sz * dims[2] / 2] for sx in (-1, 1) for sy in (-1, 1) for sz in (-1, 1)])
+        return [loc @ R.T + pos], "box"
+    return [numpy.array(o.occupiedSpace.mesh.vertices, dtype=float)], "mesh"
+
+
+def _seg_dist(px, py, ax, ay, bx, by):
+    dx, dy = bx - ax, by - ay
+    L2 = dx * dx + dy * dy
+    t = 0.0 if L2 == 0 else max(0.0, min(1.0, ((px - ax) * dx + (py - ay) * dy) / L2))
+    return math.hypot(px - (ax + t * dx), py - (ay + t * dy))
+
+
+def outside_by(spec, x, y):
+    """> 0: the point (x, y) lies outside the container by that distance; <= 0: inside (minus the distance to the boundary)"""
+    k = spec["kind"]
+    if k == "rect":
+        return max(abs(x) - spec["w"] / 2, abs(y) - spec["w"] / 2)
+    if k == "circle":
+        return math.hypot(x, y) - spec["r"]
+    pts = spec["pts"]
+    inside = False
+    d = math.inf
+    for (ax, ay), (bx, by) in zip(pts, pts[1:] + pts[:1]):
+        d = min(d, _seg_dist(x, y, ax, ay, bx, by))
+        if (ay > y) != (by > y) and x < ax + (y - ay) * (bx - ax) / (by - ay):
+            inside = not inside
+    return -d if inside else d
+
+
+def probe_points(pieces, gk):
+    """points that certainly belong to the solid: the vertices, and for box-like pieces also points on all segments
+    between two corners (needed for non-convex containers)"""
+    out = []
+    for P in pieces:
+        out += [p for p in P]
+        if gk in ("box", "assembly"):
+            for i, j in itertools.combinations(range(len(P)), 2):
+                for t in (0.25, 0.5, 0.75):
+                    out.append(P[i] * (1 - t) + P[j] * t)
+    return out
+
+
 def run_program(job):
     import scenic
     from scenic.core.distributions import RejectionException, needsSampling
@@ -208,6 +268,60 @@ def run_program(job):
         bad = []
         checks = 0
         active = [bool(r.active) for r in sc.userRequirements]
+        # ---- INDEPENDENT exact oracle (no call into the overlap / containment code under test)
+        geo = [indep_geometry(o, (job.get("pieces") or {}).get(str(i))) for i, o in enumerate(so)]
+        indep = dict(contain_checked=0, pairs_far=0, pairs_sep=0, pairs_close=0, pairs_overlap=0, geometry_ok=0)
+        for i, o in enumerate(so):
+            P, gk = geo[i]
+            allv = numpy.concatenate(P)
+            mb = numpy.array(o.occupiedSpace.mesh.bounds, dtype=float)
+            dev = max(float(numpy.max(numpy.abs(allv.min(axis=0) - mb[0]))), float(numpy.max(numpy.abs(allv.max(axis=0) - mb[1]))))
+            if gk != "mesh":
+                if dev > 1e-5 * max(1.0, float(numpy.max(numpy.abs(mb)))):
+                    bad.append(dict(kind="geometry", o=objs[i], what="occupiedSpace bounds differ from the independently computed solid", dev=dev))
+                else:
+                    indep["geometry_ok"] += 1
+        cspec = job.get("containers")
+        if cspec is not None:
+            for i, o in enumerate(so):
+                spec = cspec["objects"].get(str(i)) or cspec["workspace"]
+                if spec is None:
+                    continue
+                indep["contain_checked"] += 1
+                checks += 1
+                worst, wp = -math.inf, None
+                for p in probe_points(*geo[i]):
+                    d = outside_by(spec, float(p[0]), float(p[1]))
+                    if d > worst:
+                        worst, wp = d, p
+                if worst > 1e-6:
+                    bad.append(dict(kind="containment-exact", o=objs[i], container=spec, outside_by=worst, point=[float(x) for x in wp],
+                                    position=[float(x) for x in o.position], planar_box=bool(getattr(o, "_isPlanarBox", False))))
+        import impl_c04
+        for i, j in itertools.combinations(range(n), 2):
+            a, b = so[i], so[j]
+            if a.allowCollisions or b.allowCollisions:
+                continue
+            checks += 1
+            PA, PB = geo[i][0], geo[j][0]
+            VA, VB = numpy.concatenate(PA), numpy.concatenate(PB)
+            ca, cb = VA.mean(axis=0), VB.mean(axis=0)
+            ra, rb = float(numpy.max(numpy.linalg.norm(VA - ca, axis=1))), float(numpy.max(numpy.linalg.norm(VB - cb, axis=1)))
+            if float(numpy.linalg.norm(ca - cb)) > ra + rb + 1e-9:
+                indep["pairs_far"] += 1
+                continue
+            certs = [dict(impl_c04.pair_truth(A, B), i=x, j=y) for x, A in enumerate(PA) for y, B in enumerate(PB)]
+            com = [t for t in certs if t["kind"] == "com"]
+            if com:
+                t = max(com, key=lambda t: t["margin"])
+                indep["pairs_overlap"] += 1
+                bad.append(dict(kind="overlap-exact", a=objs[i], b=objs[j], depth=t["margin"], cert=t, A=PA[t["i"]].tolist(), B=PB[t["j"]].tolist(),
+                                positions=[[float(x) for x in a.position], [float(x) for x in b.position]],
+                                impl_intersects=bool(a.intersects(b))))
+            elif all(t["kind"] == "sep" for t in certs):
+                indep["pairs_sep"] += 1
+            else:
+                indep["pairs_close"] += 1
         # pairwise overlap, all pairs
         for i, j in itertools.combinations(range(n), 2):
             a, b = so[i], so[j]
@@ -274,7 +388,7 @@ def run_program(job):
             env = dict(o=so, dist=lambda a, b: math.dist((a.position.x, a.position.y, a.position.z), (b.position.x, b.position.y, b.position.z)), P=scene.params)
             if not eval(pred, env):
                 bad.append(dict(kind="user", index=idx, pred=pred))
-        scenes.append(dict(iterations=its, checks=checks, vis_checks=vis_n, bad=bad, active=active,
+        scenes.append(dict(iterations=its, checks=checks, vis_checks=vis_n, bad=bad, active=active, indep=indep,
                            pos=[[round(float(c), 3) for c in o.position] for o in so]))
     res["scenes"] = scenes
     res["wall"] = round(time.time() - t_start, 2)
